@@ -98,10 +98,13 @@ package plugin
 //@   call writeStanza#3 requires arg1 == "ok" && s.Type == "msg" && len(arg2) == 0                                                 [C16]
 //@   call writeStanza#4 requires arg1 == "fail" && (s.Type == "request-secret" || s.Type == "request-public") && c.RequestValue == nil   [C16]
 //@   call writeStanza#5 requires arg1 == "fail" && (s.Type == "request-secret" || s.Type == "request-public")                       [C16]
-//@   call writeStanzaWithBody#1 requires arg1 == "ok" && (s.Type == "request-secret" || s.Type == "request-public")                 [C16]
+//@   call writeStanzaWithBody#1 requires arg1 == "ok" && (s.Type == "request-secret" || s.Type == "request-public") && bytes(arg2) == secret   [C16]
 //@   call writeStanza#6 requires arg1 == "fail" && s.Type == "confirm" && c.Confirm == nil                                          [C16]
 //@   call writeStanza#7 requires arg1 == "fail" && s.Type == "confirm"                                                             [C16]
-//@   call writeStanza#8 requires arg1 == "ok" && s.Type == "confirm" && len(arg2) == 1 && (arg2[0] == "yes" || arg2[0] == "no")     [C16]
+//@   call writeStanza#8 requires arg1 == "ok" && s.Type == "confirm" && len(arg2) == 1 && arg2[0] == (choseYes ? "yes" : "no")       [C16]
+//@   call Confirm#3 requires arg1 == name && arg2 == str(bytes(s.Body)) && arg3 == str(bytes(yes)) && arg4 == str(bytes(no)) && (len(s.Args) == 1 ==> isnil(no))   [C16]
+//@   call RequestValue#2 requires arg1 == name && arg2 == str(bytes(s.Body)) && (arg3 <==> s.Type == "request-secret")              [C16]
+//@   call DisplayMessage#1 requires arg1 == name && arg2 == str(bytes(s.Body))                                                     [C16]
 //@   modifies conn.$out, conn.$wn, $handled
 //@   assumes#handled $handled == old($handled) + (ok ? 1 : 0)
 //@   ensures#known ok <==> (s.Type == "msg" || s.Type == "request-secret" || s.Type == "request-public" || s.Type == "confirm")     [C16]
@@ -129,6 +132,7 @@ package plugin
 //@   call writeStanza#7 requires id(arg0) == id(conn) && arg1 == "ok" && len(arg2) == 0 && s.Type == "error"                       [C16]
 //@   call writeStanza#8 requires id(arg0) == id(conn) && arg1 == "unsupported" && len(arg2) == 0 && s.Type != "recipient-stanza" && s.Type != "labels" && s.Type != "error" && s.Type != "done" && s.Type != "msg" && s.Type != "confirm" && s.Type != "request-secret" && s.Type != "request-public"   [C16]
 //@   call handle#1 requires arg2 == conn && arg3 == s                                                                             [C16]
+//@   call fmt.Errorf#6 requires arg0 == "%s" && len(arg1) == 1 && s.Type == "error"                                                 [C16]
 //@   loop 1 invariant conn != nil && conn.Writer != nil && sr != nil && sr.r != nil && r.ui != nil && r.ui == old(r.ui)
 //@   loop 1 invariant#accepted len(stanzas) == calls("writeStanza", 5) - old(calls("writeStanza", 5))                              [C16]
 //@   loop 1 invariant#labelsonce (isnil(labels) ==> calls("writeStanza", 6) == old(calls("writeStanza", 6))) && (!isnil(labels) ==> calls("writeStanza", 6) == old(calls("writeStanza", 6)) + 1)   [C16]
@@ -157,6 +161,7 @@ package plugin
 //@   call writeStanza#4 requires id(arg0) == id(conn) && arg1 == "ok" && len(arg2) == 0 && s.Type == "file-key" && len(s.Args) == 1 && atoiok(s.Args[0]) && atoi(s.Args[0]) == 0 && same(fileKey, s.Body)   [C16]
 //@   call writeStanza#5 requires id(arg0) == id(conn) && arg1 == "ok" && len(arg2) == 0 && s.Type == "error"                       [C16]
 //@   call writeStanza#6 requires id(arg0) == id(conn) && arg1 == "unsupported" && len(arg2) == 0 && s.Type != "file-key" && s.Type != "error" && s.Type != "done" && s.Type != "msg" && s.Type != "confirm" && s.Type != "request-secret" && s.Type != "request-public"   [C16]
+//@   call fmt.Errorf#7 requires arg0 == "%s" && len(arg1) == 1 && s.Type == "error"                                                 [C16]
 //@   call handle#1 requires arg2 == conn && arg3 == s                                                                             [C16]
 //@   loop 1 invariant -1 <= rangeindex && rangeindex < len(stanzas) && conn != nil && conn.Writer != nil && unchanged(stanzas) && (forall j in 0..len(stanzas) :: stanzas[j] != nil) && i.ui != nil && i.ui == old(i.ui)
 //@   loop 1 invariant#forwarded calls("Marshal", 1) == old(calls("Marshal", 1)) + rangeindex + 1                                   [C16]
